@@ -9,4 +9,9 @@ GInit == Init /\ hist = <<>>
 GNext == Next /\ hist' = Append(hist, [op |-> last'.op, n |-> last'.n, e |-> last'.e, r |-> last'.r])
 GSpec == GInit /\ [][GNext]_<<vars, hist>>
 Emit == (Len(hist) < Depth) \/ (PrintT(<<"BEHAVIOUR", ToJson([chg |-> chg, h |-> hist])>>) /\ FALSE)
+\* Edge cover: with VIEW CoverView TLC explores every distinct tracker state once; the CONSTRAINT is
+\* evaluated on every generated successor, so every (reachable state, handler call) pair - including
+\* every duplicate / redelivered notification, start and complete in every state - is printed once.
+CoverView == core
+EmitAll == IF hist = <<>> THEN TRUE ELSE PrintT(<<"BEHAVIOUR", ToJson([chg |-> chg, h |-> hist])>>)
 ====
